@@ -18,7 +18,7 @@ QUICK = [
     ("chk_closed_form_recurrence", 60), ("chk_unfiltered_counts", 150),
     ("chk_e2e_depth1", 120),
 ]
-THOROUGH = QUICK + [("chk_subpyramid_toast_userfilter_wide", 900), ("chk_e2e_depth2", 900), ("chk_e2e_depth2_apex1", 900), ("chk_e2e_depth2_apex2", 900), ("chk_e2e_depth2_pair02", 1500), ("chk_e2e_depth2_pair3", 1700)]
+THOROUGH = QUICK + [("chk_subpyramid_toast_userfilter_wide", 900), ("chk_e2e_depth2", 900), ("chk_e2e_depth2_apex1", 900), ("chk_e2e_depth2_apex2_q0", 900), ("chk_e2e_depth2_apex2_q1", 900), ("chk_e2e_depth2_apex2_q2", 900), ("chk_e2e_depth2_apex2_q3", 900), ("chk_e2e_depth2_pair02", 1500), ("chk_e2e_depth2_pair3", 1700)]
 
 
 def declare(run):
